@@ -30,6 +30,8 @@ def diff_streams(tier):
     ]
 
 
+NOT_CLAIMED = {}
+
 PROPS = {
     'C01': dict(
         theorems=['C01_no_false_pass', 'C01_oracle_exact', 'C01_stream_is_its_lines'],
@@ -39,6 +41,8 @@ PROPS = {
         rule='expectations are built through the public RuleRegistry with a matrix rule, so `matches` realises any boolean matrix; '
              'exhaustive over all (#exp<=3, #lines<=3, quantifier vectors, matrices) plus seeded random up to 12x20 biased towards '
              'nearly-described outputs; a case is non-trivial when it has at least one expectation and one line; distinct by input text',
+        manifest=dict(text='Machine-checked theorem (Coq): for every expectation list, every rule semantics and every output, acceptance by the model of DiffTool::diff implies membership in e1{q1}..en{qn} (C01_no_false_pass); describedb is proved to decide that language. The model is tied to /repo on every run by running the real DiffTool/TestCase::validate and the extracted model on exhaustive-small and random match matrices; the proved oracle is evaluated on the implementation verdicts.',
+                      technique='Coq proof by induction over the matcher loop; differential correspondence of the extracted model against DiffTool::diff; proved DP oracle on implementation verdicts'),
         exhaustive={'quick': False, 'thorough': False},
         assumptions=['rule semantics are abstract (any `matches` function): C04 covers the concrete rules',
                      'the correspondence compares acceptance (Diff::has_differences and TestCase::validate) of the real DiffTool with the model on every case'],
@@ -50,6 +54,8 @@ PROPS = {
         case_format=DIFF_FORMAT,
         rule='same cases as C01; the whole Diff.lines vector (kinds, expectation indices, line indices, line contents) is compared with the model and '
              'the proved boolean conservation_b is evaluated on the implementation\'s diff; panics/errors count as violations',
+        manifest=dict(text='Machine-checked theorem (Coq): the model of DiffTool::diff terminates (fuel lemma) and its result mentions every line once in order under its own index, expectations at most once in order, non-optional ones exactly once, with well-formed entries (C02_conservation); byte level: the lines are a partition of the stream. Tied to /repo by comparing the full diff vector on every generated case and by evaluating the proved boolean conservation_b on the implementation result.',
+                      technique='Coq proof (loop invariant + fuel/termination lemma); differential correspondence on the whole diff vector; proved conservation oracle on implementation diffs'),
         exhaustive={'quick': False, 'thorough': False},
         assumptions=['line contents reported by the implementation are checked against the output bytes by the harness'],
     ),
@@ -59,10 +65,37 @@ PROPS = {
         spec_kinds=['SPEC:C03'], corr_kinds=['DIFF:accept', 'DIFF:validate'],
         case_format=DIFF_FORMAT,
         rule='same cases as C01; on every case where the proved detb holds the implementation must accept iff describedb',
+        manifest=dict(text='Machine-checked theorem (Coq): under one-line-lookahead determinism (detb) the model accepts iff the output is described (C03_complete_when_deterministic), with corollaries for quantifier-free lists and own-lines; the hypothesis is shown necessary by a closed counterexample. Tied to /repo as C01; the oracle detb => (accepts <-> describedb) is evaluated on the implementation.',
+                      technique='Coq proof by simulation of the greedy cursor against the unique reading; differential correspondence; proved determinism/description oracles on implementation verdicts'),
         exhaustive={'quick': False, 'thorough': False},
         assumptions=[],
     ),
 }
+
+
+def config_streams(tier):
+    n = {'quick': 40000, 'extended': 400000, 'thorough': 2000000}[tier]
+    return [dict(name='layers', harness=['config', str(n), '{seed}', '{shard}', '{nshards}'], driver='config')]
+
+
+PROPS['C16'] = dict(
+    family='line',
+    theorems=['C16_precedence_scalars', 'C16_precedence_env', 'C16_assoc', 'C16_empty_identity', 'C16_doc_assoc',
+              'C16_doc_empty_identity', 'C16_lists_accumulate', 'C16_format_defaults', 'C16_oracle'],
+    streams=config_streams,
+    spec_kinds=['SPEC:C16'], corr_kinds=['DIFF:'],
+    case_format='E cli;tc;doc;fmt;forced|effective  (layers as os= kc= to= de= sk= sa= wa= env=name:value,...; - = unset)  '
+                'A a;b;c|(a>b)>c|a>(b>c)|a>empty|empty>a   D doc configs a;b;c|a.with_defaults_from(b)|a.with_overrides_from(b)|left|right   '
+                'P inline;document defaults|config of the test case MarkdownParser::parse returns|document defaults it returns',
+    rule='exhaustive {unset,A,B}^4 per key (8 keys x 81) through the real with_defaults_from/with_overrides_from composition used by the parser, the test '
+         'command and the executor; random layers with 4 densities; associativity/identity triples; DocumentConfig merges with prepend/append lists; '
+         'Markdown documents with front-matter defaults + inline config parsed by the real MarkdownParser. Non-trivial: at least two layers set something; distinct by case text',
+    manifest=dict(text='Machine-checked theorems (Coq): the composition of the three application sites (parser, test command, executor) yields, for every scalar key and every environment variable, the value of the highest-precedence layer that sets it; layering is associative with the empty layer as identity (test-case and document level); prepend/append accumulate in order; format defaults are pinned against constants regenerated from /repo. Tied to /repo by running the real merge functions and the real MarkdownParser on exhaustive {unset,A,B}^4 per key and random layers.',
+                  technique='Coq proof (case analysis over option layers, lookup over insertion sequences) + constants regenerated from source + differential correspondence of the extracted model against config.rs and the Markdown parse site'),
+    exhaustive={'quick': False, 'thorough': False},
+    assumptions=['command-line layer: exercised through with_overrides_from as bin/commands/test.rs applies it; clap argument parsing itself is not modelled',
+                 'format defaults are regenerated from /repo (gen_Consts.v) on every run and pinned by C16_format_defaults'],
+)
 
 
 def run_one(prop, inp, ctx):
@@ -72,6 +105,11 @@ def run_one(prop, inp, ctx):
     if fam == 'diff':
         f = inp.split('|')[0].split(' ')
         rc, out = ctx['sh']('%s diff one %s | %s diff' % (ctx['SVH'], ' '.join("'%s'" % x for x in f[:5]), ctx['SVD']))
+        return [l for l in out.split('\n') if l.startswith('CASE')], out
+    if fam == 'line':
+        # generic: the case line carries the implementation's result; re-evaluate the model/oracle on it
+        drv = cfg['streams']('quick')[0]['driver']
+        rc, out = ctx['sh']([ctx['SVD'], drv], inp=(inp + '\n').encode())
         return [l for l in out.split('\n') if l.startswith('CASE')], out
     return [], ''
 
